@@ -104,7 +104,14 @@ def main():
     sens.sort(key=lambda x: 0 if _re.search(r"union\(.*(vec|fvec|map|farr|ndarr|dynarr)\((\w+,)?(opt|union)\(", we.type_class(x[0])) else 1)
     sens = sens[:(60 if thorough else 22)]
     types = named_fields[:8] + sens + [x for x in types if x not in named_fields[:8] and x not in sens]
-    npk = 24 if thorough else 9
+    # chains of container operators over an optional / a union (WireCases.tla Stacked): `int?**`, `string->int?*`, `int?*3*2` ...
+    cases3, _ = we.export_cases(3, tier="quick")
+    stacked = we.group_types(cases3)
+    c.rng.shuffle(stacked)
+    nst = len(stacked) if thorough else 30
+    c.cov["stacked_container_chains"] = nst
+    types = named_fields[:8] + sens + stacked[:nst] + types[len(named_fields[:8]) + len(sens):]
+    npk = 24 + (nst + 9) // 10 if thorough else 9 + 3
     bases = [types[i * 10:(i + 1) * 10] for i in range(npk)]
 
     jobs = [(bi, broken, x) for bi in range(len(bases)) for broken in (False, True) for x in spellings
